@@ -159,7 +159,7 @@ def obligations(tier, seed):
     obs = []
     quick = tier == 'quick'
     t = 200 if quick else 1200
-    cfgs = [(',', 'quoted'), (' ', 'quoted'), (';', 'quoted_rfc'), ('\t', 'simple'), (' ', 'whitespace'), ('|', 'quoted'), (',', 'monocolumn')]
+    cfgs = [(',', 'quoted'), (' ', 'quoted'), (';', 'quoted_rfc'), ('\t', 'simple'), (' ', 'whitespace'), ('|', 'quoted'), (',', 'monocolumn'), ('::', 'quoted'), (':=)', 'quoted_rfc')]
     for ci, (dlm, policy) in enumerate(cfgs):
         for preserve in (False, True):
             for L in ((0, 1, 2, 3, 4) if quick else (0, 1, 2, 3, 4, 5, 6)):
